@@ -38,7 +38,7 @@ func configs() []cfg {
 			instr: []instr.PkgRules{{Pkg: "websocket", SyncSwap: true, ChanLock: []string{"mu"}, Timers: true, Export: "websocket/verif_export.go"}}},
 		{id: "C16", pkg: "checks/c16", level: "fault_enumeration", workers: 16, thoroBud: 25 * time.Minute,
 			instr: []instr.PkgRules{{Pkg: "https/acme", Export: "acme/verif_export.go"}}},
-		{id: "C17", pkg: "checks/c17", level: "exploration", workers: 16, thoroBud: 40 * time.Minute},
+		{id: "C17", pkg: "checks/c17", level: "exploration", workers: 16, quickBud: 150 * time.Second, thoroBud: 40 * time.Minute},
 		{id: "C18", pkg: "checks/c18", level: "model_checking", workers: 8, race: true,
 			instr: []instr.PkgRules{{Pkg: "logger", SyncSwap: true, Globals: []string{"gCid"}}}},
 		{id: "C19", pkg: "checks/c19", level: "exploration", workers: 16, thoroBud: 25 * time.Minute},
